@@ -389,6 +389,7 @@ func (e *Engine) VerifyFunc(prop, key string) (rep *FuncReport, obls []*Obligati
 	fc := &FCtx{E: e, U: NewUniverse(), FI: fi, C: c, Prop: prop, counters: map[string]int{}, assumed: map[string]bool{}, inlined: map[string]bool{}, specDecl: map[string]bool{}, ctxSuffixOf: map[string]string{}, cacheParent: map[string]string{}}
 	fc.noOverflow = c.Flags["nooverflow"] != ""
 	fc.mayPanic = c.Flags["may_panic"] != ""
+	fc.mayPanicCallsOnly = c.Flags["may_panic"] == "calls"
 	fc.fpMode = c.Flags["mode"] == "fp"
 	fc.retOrd = e.retOrds(fi)
 	defer func() {
